@@ -242,6 +242,13 @@ var lockOps = map[string]string{
 	"TryLock": "TryLock", "TryRLock": "TryRLock",
 }
 
+// blockingOps: other sync primitives whose blocking is simulated (type.method -> simrt function).
+var blockingOps = map[string]string{
+	"Cond.Wait": "CondWait", "Cond.Signal": "CondSignal", "Cond.Broadcast": "CondBroadcast",
+	"Once.Do":        "OnceDo",
+	"WaitGroup.Add":  "WGAdd", "WaitGroup.Done": "WGDone", "WaitGroup.Wait": "WGWait",
+}
+
 func lit(s string) *ast.BasicLit {
 	return &ast.BasicLit{Kind: token.STRING, Value: fmt.Sprintf("%q", s)}
 }
@@ -312,6 +319,9 @@ func rewriteFile(p *packages.Package, f *ast.File, simrtPath string) bool {
 					if _, ok := lockOps[fn.Name()]; ok {
 						return true // R1
 					}
+				}
+				if rp == "sync" && blockingOps[rn+"."+fn.Name()] != "" {
+					return true // R1b
 				}
 				if fn.Name() == "NewCond" || fn.Name() == "OnceFunc" || fn.Name() == "OnceValue" || fn.Name() == "OnceValues" {
 					return true
@@ -387,6 +397,20 @@ func rewriteFile(p *packages.Package, f *ast.File, simrtPath string) bool {
 				s := add("R1", fset, n.Pos(), rn+"."+fn.Name())
 				n.Fun = &ast.SelectorExpr{X: ast.NewIdent("simrt"), Sel: ast.NewIdent(lockOps[fn.Name()])}
 				n.Args = []ast.Expr{recv, lit(s)}
+				changed = true
+			case rp == "sync" && blockingOps[rn+"."+fn.Name()] != "":
+				se, ok := ast.Unparen(n.Fun).(*ast.SelectorExpr)
+				if !ok {
+					return true
+				}
+				recv := lockReceiver(info, se)
+				if recv == nil {
+					add("R5", fset, n.Pos(), "sync op with unresolvable receiver")
+					return true
+				}
+				s := add("R1", fset, n.Pos(), rn+"."+fn.Name())
+				n.Fun = &ast.SelectorExpr{X: ast.NewIdent("simrt"), Sel: ast.NewIdent(blockingOps[rn+"."+fn.Name()])}
+				n.Args = append(append([]ast.Expr{recv}, n.Args...), lit(s))
 				changed = true
 			case rp == "reflect" && rn == "Value" && fn.Name() == "MapKeys":
 				if par, ok := c.Parent().(*ast.CallExpr); ok {
